@@ -73,6 +73,8 @@ def read_y_rules(text):
         consts[m.group(1)] = m.group(2)
     consts = {k: v for k, v in consts.items() if re.fullmatch(r'true|false|-?\d+', v)}
     const_re = re.compile(r'(?<![\w$@.>:])(' + '|'.join(map(re.escape, consts)) + r')(?![\w(])') if consts else None
+    from gen_lex import _static_helpers, _inline as gen_lex_inline
+    helpers = {k: v for k, v in _static_helpers(re.sub(r'//[^\n]*|/\*.*?\*/', ' ', parts[0] + '\n' + parts[2], flags=re.S)).items() if len(v[1]) < 400 and not re.match(r'utap_|yy|parse', k)}
     i, n = 0, len(s)
     rules = []
     cur_lhs, alts, cur = None, None, None
@@ -92,6 +94,8 @@ def read_y_rules(text):
         """$name / $[name] / @name / @[name] in the actions become the positional $k / @k they stand for (a symbol that occurs once in the
         rule may also be referred to by its own name)"""
         names = dict(alt.pop('names'))
+        if helpers:      # file-static helpers called from the actions (rememberTransitionSource($1);) are read as their bodies
+            alt['items'] = [(k, gen_lex_inline(v, helpers) if k == 'act' else v) for k, v in alt['items']]
         if const_re:
             alt['items'] = [(k, const_re.sub(lambda m: consts[m.group(1)], v) if k == 'act' else v) for k, v in alt['items']]
         syms = [v for k, v in alt['items'] if k == 'sym']
